@@ -663,6 +663,10 @@ class VectorObject2D(VectorObject, Planar, Vector2D):
 
         for k, v in kwargs.copy().items():
             kwargs.pop(k)
+            if _repr_momentum_to_generic.get(k, k) in kwargs:
+                raise TypeError(
+                    f"duplicate coordinates (through momentum-aliases): {k!r}"
+                )
             kwargs[_repr_momentum_to_generic.get(k, k)] = v
 
         if not kwargs and azimuthal is not None:
@@ -1030,6 +1034,10 @@ class VectorObject3D(VectorObject, Spatial, Vector3D):
 
         for k, v in kwargs.copy().items():
             kwargs.pop(k)
+            if _repr_momentum_to_generic.get(k, k) in kwargs:
+                raise TypeError(
+                    f"duplicate coordinates (through momentum-aliases): {k!r}"
+                )
             kwargs[_repr_momentum_to_generic.get(k, k)] = v
 
         if not kwargs and azimuthal is not None and longitudinal is not None:
@@ -1687,6 +1695,10 @@ class VectorObject4D(VectorObject, Lorentz, Vector4D):
     ) -> None:
         for k, v in kwargs.copy().items():
             kwargs.pop(k)
+            if _repr_momentum_to_generic.get(k, k) in kwargs:
+                raise TypeError(
+                    f"duplicate coordinates (through momentum-aliases): {k!r}"
+                )
             kwargs[_repr_momentum_to_generic.get(k, k)] = v
 
         if (
